@@ -353,6 +353,7 @@ impl ProofOutline {
                         .universal_closure_with_quantifier_joining()
                         .replace_placeholders(placeholders)
                         .try_into()?;
+                    taken_predicates.extend(anf.formula.predicates());
                     match anf.direction {
                         fol::Direction::Universal => {
                             forward_lemmas.push(general_lemma.clone());
